@@ -183,12 +183,64 @@ def oracle(a, b, obs):
     return bad
 
 
+def laws(A, B, C):
+    """the C06b theorems evaluated on implementation objects; returns the first law that fails (text) or None"""
+    key = lambda x: None if x is None else iv_out(x)      # noqa: E731
+    ab, ba, bc = A.intersection(B), B.intersection(A), B.intersection(C)
+    if key(ab) != key(ba):
+        return f'C06_intersection_comm: a&b = {key(ab)}, b&a = {key(ba)}'
+    if key(A.intersection(A)) != iv_out(A):
+        return 'C06_intersection_idem'
+    l = None if ab is None else ab.intersection(C)
+    r = None if bc is None else A.intersection(bc)
+    if key(l) != key(r):
+        return f'C06_intersection_assoc: (a&b)&c = {key(l)}, a&(b&c) = {key(r)}'
+    if (ab is None) != A.isdisjoint(B) or (ab is not None) != A.intersects(B):
+        return 'C06_intersection_none_iff / C06_intersection_some_iff'
+    if ab is not None and not (ab.issubset(A) and ab.issubset(B)):
+        return f'C06_intersection_lower: a&b = {key(ab)} is not a subset of both operands'
+    if C.issubset(A) and C.issubset(B) and (ab is None or not C.issubset(ab)):
+        return f'C06_intersection_greatest: c is a subset of a and of b but not of a&b = {key(ab)}'
+    if A.issubset(B) != (key(ab) == iv_out(A)):
+        return f'C06_issubset_iff_intersection: issubset = {A.issubset(B)}, a&b = {key(ab)}'
+    if A.issubset(B) and B.issubset(C) and not A.issubset(C):
+        return 'C06_issubset_trans'
+    if A.issubset(B) and B.issubset(A) and not (A == B and hash(A) == hash(B)):
+        return 'C06_issubset_antisym'
+    if not A.issubset(A):
+        return 'C06_issubset_refl'
+    u, v = A.union(B), B.union(A)
+    if iv_out(u) != iv_out(v) or iv_out(A.union(A)) != iv_out(A):
+        return 'C06_union_comm / C06_union_idem'
+    if iv_out(u.union(C)) != iv_out(A.union(B.union(C))):
+        return 'C06_union_assoc'
+    if A.issubset(B) and iv_out(u) != iv_out(B):
+        return f'C06_issubset_union: a is a subset of b but the hull is {iv_out(u)}'
+    if ab is not None and iv_out(A.union(ab)) != iv_out(A):
+        return 'C06_absorb_union_intersection'
+    if A.start < A.end and B.start < B.end and not (A.issubset(u) and B.issubset(u)):
+        return 'C06_union_upper_proper'
+    if A.issubset(B) and A.intersects(C) and not B.intersects(C):
+        return 'C06_intersects_mono'
+    if A.intersects(B) != B.intersects(A):
+        return 'C06_intersects_sym'
+    if A.issubset(B) and not A.intersects(B):
+        return 'C06_issubset_intersects'
+    if C.start == C.end:
+        if C.issubset(A) != (C.start in A) or A.intersects(C) != (C.start in A):
+            return 'C06_issubset_instant / C06_intersects_instant'
+        if A.issubset(B) and (C.start in A) and not (C.start in B):
+            return 'C06_contains_dt_mono'
+    return None
+
+
 def main():
     ck = Check('C06')
-    ck.build_theories(['theories/Props/C06.vo', 'theories/Corr/TimeK.vo'])
+    ck.build_theories(['theories/Props/C06.vo', 'theories/Props/C06b.vo', 'theories/Corr/TimeK.vo'])
     rep = gen_time.main(REPO, os.path.join(ck.rundir, 'TimeGen.v'))
     ck.gen('TimeGen.v', rep, 'TimeGenEq.v')
     ck.props('Props/C06.v')
+    ck.props('Props/C06b.v')     # order and lattice laws (subset order, intersection = meet, hull = join up to D8)
 
     rng = ck.rng
     H = 3_600_000_000                      # one hour in microseconds: the discrete timeline's step
@@ -378,6 +430,24 @@ def main():
                       'theorems': 'C06_* (Props/C06.v): the model value at this input is the one the theorems pin to the set semantics',
                       'how_to_replay': 'bin/check C06 --replay <this file>'})
         reported += 1
+
+    # ---- the laws of Props/C06b.v demanded of the implementation itself, on CHAINED results (the operands of the second
+    # operation are objects the library returned): triples over the 7-point timeline
+    triples = [(a, b, c) for a in ivs for b in ivs for c in ivs]
+    if ck.tier == 'quick':
+        triples = rng.sample(triples, 2500)
+    law_bad = []
+    for n, (a, b, c) in enumerate(triples):
+        sa, sb, sc = next(styles_cycle), next(styles_cycle), next(styles_cycle)
+        why = laws(build(a, sa), build(b, sb), build(c, sc))
+        ck.count('laws:triples')
+        if why:
+            law_bad.append(((a, b, c), why))
+    for (a, b, c), why in law_bad[:3]:
+        ck.violation({'kind': 'property-fails-on-implementation',
+                      'case': {'k': 'laws', 'a': a, 'b': b, 'c': c, 'unit': 'microseconds; one hour = 3600000000'},
+                      'detail': why, 'theorems': 'Props/C06b.v (the law named in detail is a theorem of the model for all well-formed intervals)'})
+    ck.cov['evaluations'] += len(triples)
 
     # D8: deterministic replay of the known finding
     for f in ck.findings:
